@@ -3,6 +3,8 @@ use crate::error::{EvalErr, Result};
 pub type Cost = u64;
 
 pub fn check_cost(cost: Cost, max_cost: Cost) -> Result<()> {
+    #[cfg(feature = "verif-hooks")]
+    crate::verif::log_cost(cost, max_cost);
     if cost > max_cost {
         Err(EvalErr::CostExceeded)
     } else {
